@@ -211,6 +211,7 @@ def child_state(v: Any) -> Dict[str, Any]:
 FILE_KINDS = ["binary-file", "BytesIO", "StringIO", "text:utf-8", "text:ascii", "text:latin-1", "text:cp1252", "text:utf-16"]
 # write-only sinks that are not io classes: what write() returns is up to them (asyncio.StreamWriter.write and many wrappers
 # return None, raw files return the count, a careless wrapper something else)
+NDJSON_KINDS = ["text:utf-8", "text:ascii", "text:latin-1", "text:utf-16", "binary-file", "BytesIO", "StringIO"]
 SINK_KINDS = [f"{mode}-sink:write-returns-{ret}" for mode in ("binary", "text") for ret in ("None", "count", "wrong-count", "True")]
 
 
@@ -283,6 +284,19 @@ def child_file(v: Any) -> Dict[str, Any]:
                 out["dump"][kind] = {"undecodable": type(e).__name__}
         except BaseException as e:  # noqa: BLE001 - an observation
             out["dump"][kind] = {"exc": type(e).__name__}
+    # the NDJSON loop: dump(doc, fp); fp.write(newline); ... on one open file
+    out["ndjson"] = {}
+    docs = [v, [v], {"k": v}]
+    for kind in NDJSON_KINDS:
+        try:
+            fp, text = _open_for_write(kind)
+            nl = b"\n" if kind in ("binary-file", "BytesIO") else "\n"
+            for d_ in docs:
+                fast_json.dump(d_, fp)
+                fp.write(nl)
+            out["ndjson"][kind] = {"text": text()}
+        except BaseException as e:  # noqa: BLE001
+            out["ndjson"][kind] = {"exc": type(e).__name__}
     sources = {"ascii-text": json.dumps(v), "raw-text": json.dumps(v, ensure_ascii=False)}
     for kind in FILE_KINDS:
         for sname, t in sources.items():
@@ -349,6 +363,27 @@ def judge_files(values: List[Any], pools: Dict[str, workers.Pool], tally: Tally,
                     if ti == len(text_list):
                         text_list.append(t)
                     produced.append((i, n, kind, ti))
+        for kind in NDJSON_KINDS:
+            for n in names:
+                r = ans[n][i].get("ndjson", {}).get(kind, {"exc": "missing"})
+                tally.add("ndjson_files")
+                other = ans[[m for m in names if m != n][0]][i]["ndjson"][kind]
+                if "exc" in r:
+                    if "exc" not in other:
+                        viol.append((i, {"class": "ndjson-loop-fails-under-one-backend-only", "file": kind, "enc": n, "exception": r["exc"]},
+                                     f"dump(doc, fp); fp.write(newline) x3 on {kind} under {n} for v={short(v)} raised {r['exc']}"))
+                    continue
+                lines = r["text"].split("\n")
+                good = len(lines) == 4 and lines[3] == ""
+                if good:
+                    try:
+                        good = all(strict_eq(json.loads(ln), d_) for ln, d_ in zip(lines[:3], [v, [v], {"k": v}]))
+                    except ValueError:
+                        good = False
+                if not good:
+                    viol.append((i, {"class": "ndjson-file-content-wrong", "file": kind, "enc": n},
+                                 f"dump(doc, fp); fp.write(newline) for three documents on {kind} under {n}, v={short(v)}: the file "
+                                 f"holds {r['text'][:160]!r} instead of one document per line"))
         for key_, by in ((k_, {n: ans[n][i]["load"].get(k_) for n in names}) for k_ in ans[names[0]][i]["load"]):
             for n, r in by.items():
                 if r is None:
@@ -1114,7 +1149,7 @@ def run(tier: str, only=None) -> core.Result:
         sum(v.get("calls_compared_with_fresh_process", 0) for v in seq_info.values() if isinstance(v, dict))
     cov["encode_sequences"] = seq_info
     cov["file_api"] = {"values": len(file_vals), "file_kinds": FILE_KINDS + SINK_KINDS, "dumps": tally.c.get("file_dumps", 0),
-                       "loads": tally.c.get("file_loads", 0), "roundtrips_judged": tally.c.get("file_roundtrips_judged", 0)}
+                       "loads": tally.c.get("file_loads", 0), "ndjson_loops": tally.c.get("ndjson_files", 0), "ndjson_file_kinds": NDJSON_KINDS, "roundtrips_judged": tally.c.get("file_roundtrips_judged", 0)}
     cov["message_path"] = {"messages": len(msgs), "configurations": msg_hello,
                            "encodings": tally.c.get("message_encodings", 0),
                            "distinct_single_line_encodings": tally.c.get("message_distinct_encodings", 0),
@@ -1149,7 +1184,8 @@ def run(tier: str, only=None) -> core.Result:
         "x dump() and load() over a binary file, BytesIO, StringIO, text files encoded utf-8/ascii/latin-1/cp1252/utf-16 and write-only "
         "binary/text sinks whose write() returns None / the count / a wrong count / True: dump "
         "succeeds under both codecs or neither, what was written (decoded with the file's codec) loads back to the value under both, "
-        "load() of ASCII and of raw JSON text gives the value; encode statefulness: every ordered pair (on every pair of 6 values, "
+        "load() of ASCII and of raw JSON text gives the value; the NDJSON loop dump(doc, fp); fp.write(newline) for three documents on "
+        "buffered text files, binary files and StringIO leaves one document per line; encode statefulness: every ordered pair (on every pair of 6 values, "
         "incl. values that take the stdlib path under orjson: 2^64, nesting beyond orjson's limit, a lone surrogate, an object "
         "needing default=) and every ordered triple (quick: the triples a,b,a and a,a,b on two value patterns; thorough: all triples on 13 value patterns) of dumps() calls "
         "over 13 option sets, and pairs/triples of model_dump_json calls (3 models x 5 argument sets) in the four message "
